@@ -249,7 +249,8 @@ def analyse(repo, cfg):
             return 0, False
         d = 1 if re.search(r"add", name) else (-1 if re.search(r"sub", name) else 0)
         newval = bool(re.search(r"_and_fetch$|^__atomic_(add|sub)_fetch$", name))
-        zero = bool(newval and re.search(r"if\s*\(\s*%s\s*\([^;]*?\)\s*>\s*0\s*\)\s*return\s+0\s*;" % re.escape(name), body))
+        flat = re.sub(r"\s+", "", body)     # redundant parentheses / layout do not matter
+        zero = bool(newval and re.search(r"if\(+%s\([^;]*?\)+>0\)+return\(*0\)*;" % re.escape(name), flat))
         return d, zero
 
     info["get_delta"], _ = delta(gbody, get)
